@@ -49,9 +49,11 @@ Recovered == good
 InStep == sv = cl          \* same constant, same key, same number of keystream bytes consumed
 
 \* (a) the codec on a whole shard of sizes
-CodecShard == \A size \in (shard * ShardSize)..((shard + 1) * ShardSize - 1), op \in SweepOps :
-                 size <= MaxSize => CodecOK(size, op)
-CodecBoundary == \A size \in Sizes, op \in Ops : CodecOK(size, op)
+\* (evaluated once per shard: in the initial states only)
+CodecShard == (Len(hist) = 0) =>
+                 \A size \in (shard * ShardSize)..((shard + 1) * ShardSize - 1), op \in SweepOps :
+                     size <= MaxSize => CodecOK(size, op)
+CodecBoundary == (Len(hist) = 0 /\ shard = 0) => \A size \in Sizes, op \in Ops : CodecOK(size, op)
 
 EmitInv == (shard = 0 /\ Len(hist) = MaxLen) => PrintT(<<"REPLAY", ToJson([seq |-> hist])>>)
 =============================================================================
